@@ -80,7 +80,7 @@ Init ==
 
 (* put a unit on the wire towards station r (vanishes when the link is cut) *)
 Send(r, u) == wire' = IF link = "up" THEN [wire EXCEPT ![r] = Append(@, u)] ELSE wire
-Consume(s) == wire' = [wire EXCEPT ![s] = Tail(@)]
+TakeUnit(s) == wire' = [wire EXCEPT ![s] = Tail(@)]
 
 pvars == <<outbox, sentOK, sentRej, inbox, Policy>>
 
@@ -107,7 +107,7 @@ RecvFS(s) ==           \* per answer: SetDeferred at once, note rejects, queue a
        IN /\ deferred' = [deferred EXCEPT ![s] = @ \cup {blk[s][i] : i \in idx("=")}]
           /\ rejNow' = [rejNow EXCEPT ![s] = {blk[s][i] : i \in idx("-")}]
           /\ toSend' = [toSend EXCEPT ![s] = Sorted({blk[s][i] : i \in idx("+")})]
-    /\ Consume(s) /\ pc' = [pc EXCEPT ![s] = "sending"]
+    /\ TakeUnit(s) /\ pc' = [pc EXCEPT ![s] = "sending"]
     /\ UNCHANGED <<pvars, blk, written, toRecv, noMsgs, link, master, session, faults>>
 
 SendFrame(s) ==
@@ -166,7 +166,7 @@ StoreOK(s) ==          \* a complete transfer arrived: ProcessInbound, then read
     /\ pc[s] = "receiving" /\ wire[s] # <<>> /\ Head(wire[s]).k = "Frame" /\ Head(wire[s]).m = Head(toRecv[s])
     /\ inbox' = [inbox EXCEPT ![s][Head(toRecv[s])] = @ + 1]
     /\ toRecv' = [toRecv EXCEPT ![s] = Tail(@)]
-    /\ Consume(s)
+    /\ TakeUnit(s)
     /\ pc' = [pc EXCEPT ![s] = IF Len(toRecv[s]) = 1 THEN "turn" ELSE "receiving"]
     /\ UNCHANGED <<outbox, sentOK, sentRej, blk, toSend, written, rejNow, deferred, noMsgs, link, master, session, faults, Policy>>
 
@@ -180,12 +180,12 @@ StoreFail(s) ==        \* the handler reports a storage error: the session echoe
 
 RecvFF(s) ==
     /\ pc[s] = "recv" /\ wire[s] # <<>> /\ Head(wire[s]).k = "FF"
-    /\ Consume(s) /\ noMsgs' = [noMsgs EXCEPT ![s] = TRUE] /\ pc' = [pc EXCEPT ![s] = "turn"]
+    /\ TakeUnit(s) /\ noMsgs' = [noMsgs EXCEPT ![s] = TRUE] /\ pc' = [pc EXCEPT ![s] = "turn"]
     /\ UNCHANGED <<pvars, blk, toSend, written, rejNow, deferred, toRecv, link, master, session, faults>>
 
 RecvFQ(s) ==
     /\ pc[s] = "recv" /\ wire[s] # <<>> /\ Head(wire[s]).k = "FQ"
-    /\ Consume(s) /\ pc' = [pc EXCEPT ![s] = "done"]
+    /\ TakeUnit(s) /\ pc' = [pc EXCEPT ![s] = "done"]
     /\ UNCHANGED <<pvars, blk, toSend, written, rejNow, deferred, toRecv, noMsgs, link, master, session, faults>>
 
 Unexpected(s) ==       \* an error line, or a unit that does not belong here: the session fails
@@ -199,6 +199,12 @@ Unexpected(s) ==       \* an error line, or a unit that does not belong here: th
 
 ReadEOF(s) ==          \* nothing left to read and the link is gone or the peer has closed: ErrConnLost
     /\ pc[s] \in Reading /\ wire[s] = <<>>
+    /\ link = "cut" \/ pc[Peer(s)] \in Terminal
+    /\ pc' = [pc EXCEPT ![s] = "lost"]
+    /\ UNCHANGED <<pvars, blk, toSend, written, rejNow, deferred, toRecv, noMsgs, wire, link, master, session, faults>>
+
+WriteFails(s) ==       \* a write on a link that is gone, or to a peer that has closed its connection, may fail
+    /\ pc[s] \in {"turn", "sending"}
     /\ link = "cut" \/ pc[Peer(s)] \in Terminal
     /\ pc' = [pc EXCEPT ![s] = "lost"]
     /\ UNCHANGED <<pvars, blk, toSend, written, rejNow, deferred, toRecv, noMsgs, wire, link, master, session, faults>>
@@ -222,7 +228,7 @@ NextSession ==
 StationStep(s) ==
     \/ NoOutbound(s) \/ Propose(s) \/ RecvFS(s) \/ SendFrame(s) \/ ReportRejected(s) \/ Confirm(s)
     \/ (\E m \in MID : ReportSent(s, m)) \/ ReportDone(s)
-    \/ RecvBlock(s) \/ StoreOK(s) \/ RecvFF(s) \/ RecvFQ(s) \/ Unexpected(s) \/ ReadEOF(s)
+    \/ RecvBlock(s) \/ StoreOK(s) \/ RecvFF(s) \/ RecvFQ(s) \/ Unexpected(s) \/ ReadEOF(s) \/ WriteFails(s)
 
 Next == (\E s \in Station : StationStep(s) \/ StoreFail(s)) \/ Cut \/ NextSession
 
